@@ -9,8 +9,9 @@
 set -u
 id="$1"; n="${id#C}"; tgt="fz_c$n"
 secs="${VERIF_FUZZ_SECS:-300}"; seed="${VERIF_SEED:-0}"; jobs="${VERIF_FUZZ_JOBS:-16}"
-FZ=/verif/harness/fuzz
-SV=/verif/harness/target/release/svcheck
+ROOT="${VERIF_ROOT:-/verif}"
+FZ="$ROOT/harness/fuzz"
+SV="$ROOT/harness/target/release/svcheck"
 export CARGO_NET_OFFLINE=true
 LOG=$(mktemp /tmp/verif-fuzz.XXXXXX)
 work="$FZ/work/$tgt.$$"
@@ -74,7 +75,8 @@ echo "fuzz: $id target=$tgt execs=$execs cov=$cov ft=$ft corpus=$corp artifacts=
 python3 - "$id" "$execs" "$cov" "$ft" "$corp" "$nart" "$confirmed" "$((t1 - t0))" "$secs" "$jobs" <<'E'
 import json, sys
 id, execs, cov, ft, corp, nart, conf, wall, secs, jobs = sys.argv[1:]
-p = "/verif/evidence/%s.json" % id
+import os
+p = os.environ.get("VERIF_ROOT", "/verif") + "/evidence/%s.json" % id
 try:
     d = json.load(open(p))
 except Exception:
